@@ -18,7 +18,7 @@ Record guards := {
   g_mp_antecedent         : bool;  (* ModusPonens: antecedent equality (present) *)
   g_instantiate_arity     : bool;  (* Instantiate: all n ids must be present in the stream *)
   g_publish_claim_eq      : bool;  (* Publish (proof phase): claim == theorem (present) *)
-  g_evar_plugs_only       : bool   (* GHOST restriction used by C01_partial: ESubst instruction only with EVar plug *)
+  g_evar_plugs_only       : bool   (* ghost restriction (ESubst instruction only with an EVar plug); false in every configuration used by a theorem: kept only so that experiments can switch it on *)
 }.
 Definition guards_sound : guards :=
   {| g_ssubst_exists_capture := true; g_esubst_mu_capture := true; g_ssubst_mu_capture := true;
